@@ -72,4 +72,11 @@ theorem tie_newResourceManager : newResourceManagerShape =
     ["return &ResourceManager{ resources: make(map[string]io.Closer), singleFlight: NewSingleFlight(), }"] := by
   decide
 
+/-! ### the users named in the property's anchors
+`cacheNode.doTake` and `collection.Cache.Take` put exactly one `SingleFlight` call around the load, keyed by the
+cache key itself (so "one execution per key" is "one load per cache key"). -/
+theorem tie_cacheNode_barrier : cacheNodeBarrierCalls = ["c.barrier.DoEx(key, func)"] := by decide
+theorem tie_collectionCache_barrier : collectionCacheBarrierCalls = ["c.barrier.Do(key, func)"] := by decide
+theorem tie_collectionCache_ctor : collectionCacheBarrierCtor = ["syncx.NewSingleFlight()"] := by decide
+
 end GoZero.C07.Tie
